@@ -99,6 +99,11 @@ class PyDict:
 class DumpModel(FunctionSpec):
     tagged = False
 
+    def post_exc(self, run: Run, pre: Any, exc) -> None:
+        from .c06 import accessor_post_exc
+
+        accessor_post_exc(self, run, pre, exc)
+
     def mk_pair(self, run: Run) -> Ref:
         me = run.fresh("self_pair", "pair")
         p = me.t
